@@ -45,6 +45,10 @@ def run_one(m):
                         keys.append(json.load(open(rp))["key"])
                     except Exception:
                         keys.append(rp)
+            if "cargo check failed" in out:
+                status = "BROKEN-MUTANT"
+                outs.append("does not compile")
+                continue
             if m.get("silent"):
                 if r.returncode != 0:
                     status = "FALSE-ALARM"
